@@ -116,3 +116,548 @@ pub fn record_compare(tr: &mut Tr) -> usize {
     }
     n
 }
+
+// ---------------------------------------------------------------------------------------------
+// API-coverage additions (docs/api_audit.md #4, #5; size-dependent code paths).
+//   cmp2  : the comparison helpers on pairs of FIXED exact tensors (wrapped as ToTensor objects, so that
+//           `compare` / `scalar_compare` see exactly the logged tensors in both number types); the float
+//           tensors are computed from the exact ones, so the expected answer is known exactly
+//   cmpx  : `compare` / `scalar_compare` on the library's own ToTensor objects (diagrams, circuits)
+//   ops   : QubitOps constructors and the *_at operations with caller-chosen index positions, applied in
+//           sequence to ident(q) / delta(q) / a given tensor; also on ident(6) (4096 entries)
+//   plug  : plug_n_qubits
+//   cunsup: circuit to_tensor on gates the evaluator does not support (outside the property: stats only)
+//   wide  : 6- and 7-qubit circuits through the circuit evaluator AND through to_graph().to_tensor4()
+// ---------------------------------------------------------------------------------------------
+
+/// a fixed exact tensor as a ToTensor object (elements converted with the element type's own TryFrom<Scalar4>)
+struct Fixed(Tensor4);
+impl ToTensor for Fixed {
+    fn to_tensor<A: TensorElem>(&self) -> Tensor<A> {
+        self.0.mapv(|s| A::try_from(s).unwrap())
+    }
+}
+
+fn t4_of(vals: Vec<Scalar4>, rank: usize) -> Tensor4 {
+    ndarray::Array::from_shape_vec(ndarray::IxDyn(&vec![2; rank]), vals).unwrap()
+}
+
+fn tf_of(t: &Tensor4) -> TensorF {
+    t.mapv(|s| exact_to_c(&s).unwrap())
+}
+
+/// Gaussian dyadic values (exactly representable as floats, products exact) and values with a sqrt2 part
+fn val_pool(gauss_only: bool) -> Vec<Scalar4> {
+    let mut v = vec![
+        Scalar4::new([1, 0, 0, 0], 0),
+        Scalar4::new([-1, 0, 0, 0], 0),
+        Scalar4::new([0, 0, 1, 0], 0),
+        Scalar4::new([0, 0, -1, 0], 0),
+        Scalar4::new([1, 0, 1, 0], 0),
+        Scalar4::new([1, 0, 0, 0], 1),
+        Scalar4::new([1, 0, 0, 0], -1),
+        Scalar4::new([3, 0, -1, 0], -1),
+        Scalar4::new([1, 0, 2, 0], 0),
+        Scalar4::new([-3, 0, 0, 0], 0),
+    ];
+    if !gauss_only {
+        v.extend([
+            Scalar4::new([0, 1, 0, 0], 0),
+            Scalar4::new([0, 0, 0, 1], 0),
+            Scalar4::new([0, 1, 0, -1], 0),
+            Scalar4::new([0, 1, 0, -1], -1),
+            Scalar4::new([1, 1, 0, 0], 0),
+            Scalar4::new([1, 0, 0, -1], 0),
+            Scalar4::new([0, -1, 1, 0], -1),
+        ]);
+    }
+    v
+}
+
+fn rand_t4(r: &mut rand::rngs::StdRng, rank: usize, gauss_only: bool, pzero: f64) -> Tensor4 {
+    use rand::Rng;
+    let pool = val_pool(gauss_only);
+    let z = Scalar4::new([0, 0, 0, 0], 0);
+    t4_of((0..(1usize << rank)).map(|_| if r.random_bool(pzero) { z } else { pool[r.random_range(0..pool.len())] }).collect(), rank)
+}
+
+fn cmp2_event(how: &str, t0: &Tensor4, t1: &Tensor4) -> Value {
+    let (f0, f1) = (Fixed(t0.clone()), Fixed(t1.clone()));
+    let (tf0, tf1) = (tf_of(t0), tf_of(t1));
+    let mut e = json!({"k": "cmp2", "how": how, "r0": t0.ndim(), "r1": t1.ndim(), "t0": t4_json(t0), "t1": t4_json(t1)});
+    match guarded(|| {
+        (
+            t0 == t1,
+            Tensor4::scalar_eq(t0, t1),
+            Tensor4::compare(&f0, &f1),
+            Tensor4::scalar_compare(&f0, &f1),
+            TensorF::compare(&f0, &f1),
+            TensorF::scalar_compare(&f0, &f1),
+            TensorF::scalar_eq(&tf0, &tf1),
+        )
+    }) {
+        Err(m) => {
+            e["res"] = json!("panic");
+            e["msg"] = json!(m);
+        }
+        Ok((eq4, seq4, cmp4, scmp4, cmpf, scmpf, seqf)) => {
+            e["res"] = json!("ok");
+            e["eq4"] = json!(eq4);
+            e["seq4"] = json!(seq4);
+            e["cmp4"] = json!(cmp4);
+            e["scmp4"] = json!(scmp4);
+            e["cmpf"] = json!(cmpf);
+            e["scmpf"] = json!(scmpf);
+            e["seqf"] = json!(seqf);
+        }
+    }
+    e
+}
+
+/// pairs of tensors: equal, proportional (non-zero factor), one / both all-zero, different shapes, near misses
+pub fn record_helper_pairs(n: usize, r: &mut rand::rngs::StdRng, tr: &mut Tr) -> usize {
+    use rand::Rng;
+    let zero = Scalar4::new([0, 0, 0, 0], 0);
+    tr.group();
+    for i in 0..n {
+        if i % 16 == 0 {
+            tr.group();
+        }
+        let rank = r.random_range(0..=3usize);
+        let gauss = r.random_bool(0.5);
+        let pz = [0.0, 0.3, 0.6][r.random_range(0..3)];
+        let t0 = rand_t4(r, rank, gauss, pz);
+        let fpool = val_pool(gauss);
+        let z = fpool[r.random_range(0..fpool.len())];
+        let len = t0.len();
+        let (how, a, b): (&str, Tensor4, Tensor4) = match i % 12 {
+            0 => ("same", t0.clone(), t0.clone()),
+            1 | 2 => ("prop", t0.clone(), t0.mapv(|x| x * z)),
+            3 => ("zero_one", t0.clone(), t0.mapv(|_| zero)),
+            4 => ("zero_both", t0.mapv(|_| zero), t0.mapv(|_| zero)),
+            5 => {
+                // different shapes: one more index (the same data twice, or padded with zeros)
+                let mut v: Vec<Scalar4> = t0.iter().copied().collect();
+                if r.random_bool(0.5) {
+                    v.extend(t0.iter().copied());
+                } else {
+                    v.extend(std::iter::repeat(zero).take(len));
+                }
+                ("shape", t0.clone(), t4_of(v, rank + 1))
+            }
+            6 | 7 => {
+                // proportional except for one entry
+                let mut t1 = t0.mapv(|x| x * z);
+                let j = r.random_range(0..len);
+                let d = val_pool(gauss)[r.random_range(0..3)];
+                let mut v: Vec<Scalar4> = t1.iter().copied().collect();
+                v[j] = if r.random_bool(0.5) { v[j] + d } else { v[j] * Scalar4::new([-1, 0, 0, 0], 0) };
+                t1 = t4_of(v, rank);
+                ("near_entry", t0.clone(), t1)
+            }
+            8 => {
+                // first non-zero entries coincide, a later one differs
+                let mut v: Vec<Scalar4> = t0.iter().copied().collect();
+                let j = len - 1;
+                v[j] = v[j] + Scalar4::new([1, 0, 0, 0], 0);
+                ("near_tail", t0.clone(), t4_of(v, rank))
+            }
+            9 => {
+                // the first non-zero entry sits at a different position
+                let mut v: Vec<Scalar4> = t0.mapv(|x| x * z).iter().copied().collect();
+                if let Some(j) = v.iter().position(|x| *x != zero) {
+                    v[j] = zero;
+                }
+                ("lead_zero", t0.clone(), t4_of(v, rank))
+            }
+            10 => ("prop_swapped", t0.mapv(|x| x * z), t0.clone()),
+            _ => ("indep", t0.clone(), rand_t4(r, rank, gauss, 0.3)),
+        };
+        tr.emit(cmp2_event(how, &a, &b));
+    }
+    n
+}
+
+fn scale_abs(a: &Value, z: [i64; 5]) -> Value {
+    let s = crate::absg::sc_from_json(&a["sc"]) * Scalar4::new([z[0], z[1], z[2], z[3]], z[4] as i32);
+    let mut b = a.clone();
+    b["sc"] = sc_json(&s);
+    b
+}
+
+enum Obj {
+    G(Value),
+    C(Value),
+}
+impl Obj {
+    fn kind(&self) -> &'static str {
+        match self {
+            Obj::G(_) => "g",
+            Obj::C(_) => "c",
+        }
+    }
+    fn js(&self) -> &Value {
+        match self {
+            Obj::G(v) | Obj::C(v) => v,
+        }
+    }
+}
+
+fn cmpx_answers(a: &Obj, b: &Obj) -> Result<(bool, bool, bool, bool), String> {
+    use quizx::vec_graph::Graph;
+    fn go(x: &impl ToTensor, y: &impl ToTensor) -> (bool, bool, bool, bool) {
+        (Tensor4::compare(x, y), Tensor4::scalar_compare(x, y), TensorF::compare(x, y), TensorF::scalar_compare(x, y))
+    }
+    guarded(|| match (a, b) {
+        (Obj::G(x), Obj::G(y)) => go(&build::<Graph>(x), &build::<quizx::hash_graph::Graph>(y)),
+        (Obj::G(x), Obj::C(y)) => go(&build::<Graph>(x), &circ_from_json(y)),
+        (Obj::C(x), Obj::G(y)) => go(&circ_from_json(x), &build::<Graph>(y)),
+        (Obj::C(x), Obj::C(y)) => go(&circ_from_json(x), &circ_from_json(y)),
+    })
+}
+
+/// `compare` / `scalar_compare` on diagrams and circuits (the library's own ToTensor implementors)
+pub fn record_helper_objects(n: usize, r: &mut rand::rngs::StdRng, tr: &mut Tr) -> usize {
+    use crate::circ::{ag_json, random_circuit, Alphabet, AG};
+    use rand::Rng;
+    let al = Alphabet { pp: false, ..Alphabet::unitary() };
+    let cfg = crate::gens::RandCfg { max_sp: 4, max_b: 3, ..crate::gens::RandCfg::any_zx() };
+    for i in 0..n {
+        tr.group();
+        let (how, a, b): (&str, Obj, Obj) = if i % 2 == 0 {
+            // diagrams
+            let g = crate::gens::random_diagram(r, &cfg);
+            match (i / 2) % 6 {
+                0 => ("same", Obj::G(g.clone()), Obj::G(g)),
+                1 => {
+                    let z = [[-1, 0, 0, 0, 0], [0, 0, 1, 0, 0], [0, 1, 0, 0, 0], [0, 1, 0, -1, -1], [1, 0, 0, 0, 1], [1, 1, 0, 0, 0]][r.random_range(0..6)];
+                    ("prop", Obj::G(g.clone()), Obj::G(scale_abs(&g, z)))
+                }
+                2 => ("zero_one", Obj::G(g.clone()), Obj::G(scale_abs(&g, [0, 0, 0, 0, 0]))),
+                3 => ("zero_both", Obj::G(scale_abs(&g, [0, 0, 0, 0, 0])), Obj::G(scale_abs(&scale_abs(&g, [0, 0, 0, 0, 0]), [0, 1, 0, 0, 0]))),
+                4 => {
+                    // near miss: one spider phase moved by pi/4 (or an independent diagram when there is no spider)
+                    let mut h = g.clone();
+                    let sp: Vec<usize> = h["v"].as_array().unwrap().iter().enumerate().filter(|(_, v)| v["ty"] != "B").map(|(i, _)| i).collect();
+                    if sp.is_empty() {
+                        h = crate::gens::random_diagram(r, &cfg);
+                    } else {
+                        let j = sp[r.random_range(0..sp.len())];
+                        let p = &h["v"][j]["ph"];
+                        let k = (p[0].as_i64().unwrap() * 4 / p[1].as_i64().unwrap() + 1).rem_euclid(8);
+                        h["v"][j]["ph"] = crate::gens::ph4(k);
+                    }
+                    ("near_phase", Obj::G(g), Obj::G(h))
+                }
+                _ => ("indep", Obj::G(g), Obj::G(crate::gens::random_diagram(r, &cfg))),
+            }
+        } else {
+            // circuits
+            let nq = r.random_range(1..=2usize);
+            let mut al2 = al.clone();
+            al2.threeq = vec![];
+            if nq < 2 {
+                al2.twoq = vec![];
+            }
+            let len = r.random_range(0..=5);
+            let gs = random_circuit(r, nq, len, &al2);
+            let len2 = r.random_range(0..=5);
+            let c = ag_json(nq, &gs);
+            let q = r.random_range(0..nq);
+            match (i / 2) % 6 {
+                0 => {
+                    // the same map written differently: H H appended
+                    let mut g2 = gs.clone();
+                    g2.push(AG { t: "HAD", qs: vec![q], ph: 0 });
+                    g2.push(AG { t: "HAD", qs: vec![q], ph: 0 });
+                    ("same_map", Obj::C(c), Obj::C(ag_json(nq, &g2)))
+                }
+                1 => {
+                    // global phase -1: X Z X Z
+                    let mut g2 = gs.clone();
+                    for t in ["NOT", "Z", "NOT", "Z"] {
+                        g2.push(AG { t, qs: vec![q], ph: 0 });
+                    }
+                    ("global_phase", Obj::C(c), Obj::C(ag_json(nq, &g2)))
+                }
+                2 => {
+                    let mut g2 = gs.clone();
+                    g2.insert(r.random_range(0..=gs.len()), AG { t: "ZPhase", qs: vec![q], ph: [1, 2, 4, 7][r.random_range(0..4)] });
+                    ("near_gate", Obj::C(c), Obj::C(ag_json(nq, &g2)))
+                }
+                3 => ("shape", Obj::C(c), Obj::C(ag_json(nq + 1, &gs))),
+                4 => {
+                    // a circuit against its own diagram
+                    let g: quizx::vec_graph::Graph = circ_from_json(&c).to_graph();
+                    ("circuit_vs_graph", Obj::C(c), Obj::G(crate::absg::abs(&g)))
+                }
+                _ => ("indep", Obj::C(c), Obj::C(ag_json(nq, &random_circuit(r, nq, len2, &al2)))),
+            }
+        };
+        let mut e = json!({"k": "cmpx", "how": how, "ka": a.kind(), "a": a.js(), "kb": b.kind(), "b": b.js()});
+        match cmpx_answers(&a, &b) {
+            Err(m) => {
+                e["res"] = json!("panic");
+                e["msg"] = json!(m);
+            }
+            Ok((cmp4, scmp4, cmpf, scmpf)) => {
+                e["res"] = json!("ok");
+                e["cmp4"] = json!(cmp4);
+                e["scmp4"] = json!(scmp4);
+                e["cmpf"] = json!(cmpf);
+                e["scmpf"] = json!(scmpf);
+            }
+        }
+        tr.emit(e);
+    }
+    n
+}
+
+#[derive(Clone, Debug)]
+struct Op {
+    op: &'static str, // "had" | "cphase" | "delta"
+    qs: Vec<usize>,
+    k: i64, // phase in units of pi/4 (cphase only)
+}
+
+fn apply_ops<A: TensorElem>(mut t: Tensor<A>, ops: &[Op]) -> Tensor<A> {
+    for o in ops {
+        match o.op {
+            "had" => t.hadamard_at(o.qs[0]),
+            "cphase" => t.cphase_at(num::Rational64::new(o.k, 4), &o.qs),
+            "delta" => t.delta_at(&o.qs),
+            _ => unreachable!(),
+        }
+    }
+    t
+}
+
+fn start_tensor<A: TensorElem>(start: &str, r0: usize, given: &Tensor4) -> Tensor<A> {
+    match start {
+        "ident" => Tensor::<A>::ident(r0 / 2),
+        "delta" => Tensor::<A>::delta(r0),
+        "hadamard" => Tensor::<A>::hadamard(),
+        _ => Fixed(given.clone()).to_tensor::<A>(),
+    }
+}
+
+fn ops_event(start: &str, r0: usize, given: &Tensor4, ops: &[Op]) -> Value {
+    let mut e = json!({"k": "ops", "start": start, "r0": r0, "t0": if start == "given" { t4_json(given) } else { json!([]) },
+                       "ops": ops.iter().map(|o| json!({"op": o.op, "qs": o.qs, "k": o.k})).collect::<Vec<_>>()});
+    match guarded(|| (apply_ops(start_tensor::<Scalar4>(start, r0, given), ops), apply_ops(start_tensor::<Complex<f64>>(start, r0, given), ops))) {
+        Err(m) => {
+            e["res"] = json!("panic");
+            e["msg"] = json!(m);
+        }
+        Ok((t4, tf)) => {
+            e["res"] = json!("ok");
+            e["rank"] = json!(t4.ndim());
+            e["t"] = t4_json(&t4);
+            e["fok"] = json!(float_close(&t4, &tf));
+        }
+    }
+    e
+}
+
+fn distinct_positions(r: &mut rand::rngs::StdRng, rank: usize, k: usize, prefer: &[usize]) -> Vec<usize> {
+    use rand::Rng;
+    let mut all: Vec<usize> = (0..rank).collect();
+    for i in (1..all.len()).rev() {
+        all.swap(i, r.random_range(0..=i));
+    }
+    let mut out: Vec<usize> = vec![];
+    for &p in prefer {
+        if out.len() < k && p < rank && r.random_bool(0.5) && !out.contains(&p) {
+            out.push(p);
+        }
+    }
+    for p in all {
+        if out.len() < k && !out.contains(&p) {
+            out.push(p);
+        }
+    }
+    out
+}
+
+fn random_ops(r: &mut rand::rngs::StdRng, rank: usize, nops: usize, prefer: &[usize]) -> Vec<Op> {
+    use rand::Rng;
+    let mut ops = vec![];
+    for _ in 0..nops {
+        let c = r.random_range(0..3);
+        if c == 0 && rank > 0 {
+            ops.push(Op { op: "had", qs: distinct_positions(r, rank, 1, prefer), k: 0 });
+        } else if c == 1 {
+            let k = r.random_range(0..=rank.min(3));
+            ops.push(Op { op: "cphase", qs: distinct_positions(r, rank, k, prefer), k: r.random_range(1..8) });
+        } else {
+            let k = r.random_range(0..=rank.min(4));
+            ops.push(Op { op: "delta", qs: distinct_positions(r, rank, k, prefer), k: 0 });
+        }
+    }
+    ops
+}
+
+/// constructors (ident, delta, cphase, hadamard) and *_at operations with caller-chosen positions
+pub fn record_qubit_ops(n: usize, r: &mut rand::rngs::StdRng, tr: &mut Tr) -> usize {
+    use rand::Rng;
+    let none = t4_of(vec![Scalar4::new([1, 0, 0, 0], 0)], 0);
+    let mut cnt = 0;
+    tr.group();
+    // the constructors themselves, exhaustively for small q
+    for q in 0..=3usize {
+        tr.emit(ops_event("ident", 2 * q, &none, &[]));
+        cnt += 1;
+        // cphase(p, q) = ident(q) with cphase_at on the first q indices (logged as that sequence AND called directly)
+        for k in [1i64, 2, 4, 7] {
+            let mut e = json!({"k": "ops", "start": "ident", "r0": 2 * q, "t0": [], "via": "cphase",
+                               "ops": [{"op": "cphase", "qs": (0..q).collect::<Vec<_>>(), "k": k}]});
+            match guarded(|| (Tensor4::cphase(num::Rational64::new(k, 4), q), TensorF::cphase(num::Rational64::new(k, 4), q))) {
+                Err(m) => {
+                    e["res"] = json!("panic");
+                    e["msg"] = json!(m);
+                }
+                Ok((t4, tf)) => {
+                    e["res"] = json!("ok");
+                    e["rank"] = json!(t4.ndim());
+                    e["t"] = t4_json(&t4);
+                    e["fok"] = json!(float_close(&t4, &tf));
+                }
+            }
+            tr.emit(e);
+            cnt += 1;
+        }
+    }
+    for q in 0..=5usize {
+        tr.emit(ops_event("delta", q, &none, &[]));
+        cnt += 1;
+    }
+    tr.emit(ops_event("hadamard", 2, &none, &[]));
+    cnt += 1;
+    // random operation sequences
+    for i in 0..n {
+        if i % 8 == 0 {
+            tr.group();
+        }
+        let (start, r0) = match i % 4 {
+            0 => ("ident", 2 * r.random_range(0..=2usize)),
+            1 => ("delta", r.random_range(0..=4usize)),
+            _ => ("given", r.random_range(0..=4usize)),
+        };
+        let given = if start == "given" { rand_t4(r, r0, false, 0.2) } else { none.clone() };
+        let nops = r.random_range(1..=4);
+        let ops = random_ops(r, r0, nops, &[0, r0.saturating_sub(1)]);
+        tr.emit(ops_event(start, r0, &given, &ops));
+        cnt += 1;
+    }
+    cnt
+}
+
+/// the same operations on ident(6): 4096 entries, every index position class (first, last, middle)
+pub fn record_wide_ops(n: usize, r: &mut rand::rngs::StdRng, tr: &mut Tr) -> usize {
+    use rand::Rng;
+    let none = t4_of(vec![Scalar4::new([1, 0, 0, 0], 0)], 0);
+    for i in 0..n {
+        tr.group();
+        let rank = 12usize;
+        // a Hadamard on the first, the last or a middle index first, then a mix
+        let mut ops = vec![Op { op: "had", qs: vec![[0, rank - 1, rank / 2, rank / 2 - 1][i % 4]], k: 0 }];
+        let nops = r.random_range(2..=4);
+        ops.extend(random_ops(r, rank, nops, &[0, rank - 1, rank / 2]));
+        ops.push(Op { op: "had", qs: vec![r.random_range(0..rank)], k: 0 });
+        tr.emit(ops_event("ident", rank, &none, &ops));
+    }
+    n
+}
+
+/// plug_n_qubits: contract the last n indices of t0 with the first n of t1
+pub fn record_plug(n: usize, r: &mut rand::rngs::StdRng, tr: &mut Tr) -> usize {
+    use rand::Rng;
+    tr.group();
+    for i in 0..n {
+        if i % 8 == 0 {
+            tr.group();
+        }
+        let np = r.random_range(0..=2usize);
+        let d1 = np + r.random_range(0..=2usize);
+        // every other case has the shape the library's own test uses (other has exactly 2n indices)
+        let d2 = if i % 2 == 0 { 2 * np } else { np + r.random_range(0..=2usize) };
+        let (t0, t1) = (rand_t4(r, d1, false, 0.2), rand_t4(r, d2, false, 0.2));
+        let mut e = json!({"k": "plug", "n": np, "r0": d1, "r1": d2, "t0": t4_json(&t0), "t1": t4_json(&t1)});
+        let (f0, f1) = (tf_of(&t0), tf_of(&t1));
+        match guarded(|| (t0.clone().plug_n_qubits(np, &t1), f0.plug_n_qubits(np, &f1))) {
+            Err(m) => {
+                e["res"] = json!("panic");
+                e["msg"] = json!(m);
+            }
+            Ok((t4, tf)) => {
+                e["res"] = json!("ok");
+                e["rank"] = json!(t4.ndim());
+                // a result of the wrong size is logged by its length only (TLC reads `t` only when the rank is right)
+                e["len"] = json!(t4.len());
+                e["t"] = t4_json(&t4);
+                e["fok"] = json!(float_close(&t4, &tf));
+            }
+        }
+        tr.emit(e);
+    }
+    n
+}
+
+/// circuit to_tensor on the gates the evaluator does not support: the property quantifies over the
+/// supported gates only, so the outcome is recorded for the statistics and never judged
+pub fn record_unsupported(tr: &mut Tr) -> usize {
+    let kinds = ["ParityPhase", "InitAncilla", "PostSelect", "Measure", "MeasureReset", "UnknownGate"];
+    tr.group();
+    for t in kinds {
+        let cj = json!({"n": 2, "gates": [{"t": "HAD", "qs": [0], "ph": [0, 1], "vars": []},
+                                         {"t": t, "qs": if t == "ParityPhase" { vec![0, 1] } else { vec![1] }, "ph": [1, 4], "vars": []}]});
+        let c = circ_from_json(&cj);
+        let res = guarded(|| c.to_tensor4());
+        tr.emit(json!({"k": "cunsup", "gate": t, "res": if res.is_ok() { "ok" } else { "panic" }, "msg": res.err().unwrap_or_default()}));
+    }
+    kinds.len()
+}
+
+/// 6- and 7-qubit circuits: every size-dependent path of hadamard_at (parallel zip over two 2^(2n-1) halves),
+/// cphase_at / delta_at (broadcast) and swap_axes, through the circuit evaluator and through the diagram
+pub fn record_wide_circuits(n: usize, r: &mut rand::rngs::StdRng, tr: &mut Tr, maxq: usize) -> usize {
+    use crate::circ::{ag_json, random_circuit, Alphabet, AG};
+    use rand::Rng;
+    let al = Alphabet { pp: false, ..Alphabet::unitary() };
+    for i in 0..n {
+        let nq = if maxq > 6 && i % 4 == 3 { 7 } else { 6 };
+        let len = r.random_range(2..=7usize);
+        let mut gs = random_circuit(r, nq, len, &al);
+        // always a Hadamard-type gate on the first, the last or a middle qubit
+        let q = [0, nq - 1, nq / 2][i % 3];
+        let g = [AG { t: "HAD", qs: vec![q], ph: 0 }, AG { t: "NOT", qs: vec![q], ph: 0 }, AG { t: "XPhase", qs: vec![q], ph: 1 },
+                 AG { t: "CNOT", qs: vec![(q + 1) % nq, q], ph: 0 }, AG { t: "XCX", qs: vec![q, (q + 2) % nq], ph: 0 }][(i / 3) % 5].clone();
+        gs.insert(r.random_range(0..=gs.len()), g);
+        let cj = ag_json(nq, &gs);
+        record_circuit(&cj, tr);
+        let c = circ_from_json(&cj);
+        match guarded(|| {
+            let g: quizx::vec_graph::Graph = c.to_graph();
+            g.to_tensor4()
+        }) {
+            Err(msg) => tr.emit(json!({"k": "ctensor", "via": "to_graph", "res": "panic", "msg": msg})),
+            Ok(t4) => tr.emit(json!({"k": "ctensor", "via": "to_graph", "res": "ok", "rank": t4.ndim(), "t": t4_json(&t4), "fok": true})),
+        }
+    }
+    n
+}
+
+/// entry point of the additions: `--helpers N --objects N --qops N --plug N --wide-ops N --wide N [--wide7] --unsupported`
+pub fn record_extra(args: &[String], seed: u64, tr: &mut Tr) -> Value {
+    use crate::util::{arg_flag, arg_num};
+    let mut r = crate::gens::rng(seed ^ 0x7e50);
+    let helpers = record_helper_pairs(arg_num(args, "--helpers", 0), &mut r, tr);
+    let objects = record_helper_objects(arg_num(args, "--objects", 0), &mut r, tr);
+    let nq: usize = arg_num(args, "--qops", 0);
+    let qops = if nq > 0 { record_qubit_ops(nq, &mut r, tr) } else { 0 };
+    let plugs = record_plug(arg_num(args, "--plug", 0), &mut r, tr);
+    let wops = record_wide_ops(arg_num(args, "--wide-ops", 0), &mut r, tr);
+    let wide = record_wide_circuits(arg_num(args, "--wide", 0), &mut r, tr, if arg_flag(args, "--wide7") { 7 } else { 6 });
+    let unsup = if arg_flag(args, "--unsupported") { record_unsupported(tr) } else { 0 };
+    json!({"helper_pairs": helpers, "helper_objects": objects, "qubit_ops": qops, "plugs": plugs, "wide_ops": wops, "wide_circuits": wide, "unsupported": unsup})
+}
